@@ -1397,18 +1397,28 @@ private:
     if (!log.is_open())
       return; // No log file yet
 
+    // Offset of the first byte replay could not frame (a record cut short by a crash,
+    // or garbage). Everything from there on is unreadable — replay always stops at it —
+    // so it is cut off below: otherwise the log is re-opened in append mode and every
+    // later, acknowledged record lands BEHIND the torn bytes, where the next replay
+    // mis-frames it and the write is lost.
+    std::streamoff tornAt = -1;
+
     while (log.peek() != EOF)
     {
+      const std::streamoff recordStart = log.tellg();
       uint32_t totalLen = 0;
       if (!log.read(reinterpret_cast<char *>(&totalLen), sizeof(totalLen)) || totalLen < 10 ||
           totalLen > 100 * 1024 * 1024)
       {
+        tornAt = recordStart;
         break; // Invalid or corrupted entry
       }
 
       std::vector<std::uint8_t> buffer(totalLen);
       if (!log.read(reinterpret_cast<char *>(buffer.data()), totalLen))
       {
+        tornAt = recordStart;
         break; // Incomplete entry
       }
 
@@ -1546,6 +1556,17 @@ private:
       {
         _kv.erase(key);
         _expiry.erase(key);
+      }
+    }
+
+    if (tornAt >= 0)
+    {
+      log.close();
+      std::error_code ec;
+      std::filesystem::resize_file(_logPath, static_cast<std::uintmax_t>(tornAt), ec);
+      if (ec)
+      {
+        throw KVStoreException("Failed to truncate torn log tail: " + ec.message());
       }
     }
   }
